@@ -98,10 +98,13 @@ def dense_by_tokens(ttn, tokens):
 def run_query(ttn, op):
     """["query", node, scope]: plain look-ups through the public read-only API on the LIVE network
     (neighbour positions, bond / neighbour / parent-leg dimensions, recorded shape, open legs; scope
-    "all": the same for every node, and the bond dimensions of the whole network). Returns None or a description of
+    "all": the same for every node, and the bond dimensions of the whole network; scope "contract": the
+    library's own full contraction of the live network, see query_full_contraction). Returns None or a description of
     an answer that contradicts the public state; the reference is computed from the (parent, children)
     lists and the stored array with its pending permutation, never from the looked-up value."""
     _, n, scope = op
+    if scope == "contract":
+        return query_full_contraction(ttn, n)
     node = ttn.nodes[n]
     raw = ttn._tensors.data[n]
     perm = list(node.leg_permutation)
@@ -138,6 +141,77 @@ def run_query(ttn, op):
             return f"query: bond_dims() = {dict(got)}, the parent legs of the stored arrays give {ref}"
         if len(ttn.nodes) > 1 and ttn.max_bond_dim() != max(ref.values()):
             return f"query: max_bond_dim() = {ttn.max_bond_dim()}, largest bond is {max(ref.values())}"
+    return None
+
+
+def reference_full_contraction(ttn, max_size=2 ** 16):
+    """Independent dense reference for the library's own full contraction: einsum over the STORED arrays
+    brought into (parent, children, open) order by the node's pending permutation (no access through the
+    library, so the live network is not touched). The documented result: the open legs of the nodes in
+    contraction order (= depth-first pre-order, children in the order of the children lists: every
+    contract_nodes(a, b) puts a's open legs before b's), together with that order. Returns
+    (tensor or None when too large, order)."""
+    nodes = ttn.nodes
+    order = []
+    todo = [ttn.root_id]
+    while todo:
+        x = todo.pop()
+        order.append(x)
+        todo += list(reversed(nodes[x].children))
+    lab = {}
+
+    def L(x):
+        if x not in lab:
+            lab[x] = len(lab)
+        return lab[x]
+    args = []
+    out = []
+    size = 1
+    for k in order:
+        nd = nodes[k]
+        t = np.asarray(ttn._tensors.data[k]).transpose(list(nd.leg_permutation))
+        sub = []
+        if nd.parent is not None:
+            sub.append(L(("e", nd.parent, k)))
+        for c in nd.children:
+            sub.append(L(("e", k, c)))
+        for j in range(len(sub), t.ndim):
+            sub.append(L(("o", k, j)))
+            out.append(lab[("o", k, j)])
+            size *= t.shape[j]
+        args += [t, sub]
+    if len(lab) > 52 or size > max_size:
+        return None, order
+    return np.einsum(*args, out, optimize=True), order
+
+
+def query_full_contraction(ttn, n):
+    """["query", n, "contract"]: the library's OWN full contraction (`completely_contract_tree`, a public
+    entry point named by the property: method and module function, on a copy and in place on a deep copy of
+    the network, and asked twice) on the LIVE network, whatever permutations are pending on its nodes and
+    however many nodes it has (one node: nothing to contract). Judged against `reference_full_contraction`."""
+    from pytreenet.contractions.tree_contraction import completely_contract_tree as cct
+    ref, order = reference_full_contraction(ttn)
+    if ref is None:
+        return None
+    scale = max(1.0, float(np.max(np.abs(ref)))) if ref.size else 1.0
+    routes = [("ttn.completely_contract_tree(to_copy=True)", lambda: ttn.completely_contract_tree(to_copy=True)),
+              ("completely_contract_tree(ttn, to_copy=True)", lambda: cct(ttn, to_copy=True)),
+              ("completely_contract_tree(deep copy of ttn)", lambda: cct(copy.deepcopy(ttn))),
+              ("deep copy of ttn .completely_contract_tree()", lambda: copy.deepcopy(ttn).completely_contract_tree()),
+              ("ttn.completely_contract_tree(to_copy=True), asked again", lambda: ttn.completely_contract_tree(to_copy=True))]
+    for name, f in routes:
+        found, got_order = f()
+        found = np.asarray(found)
+        where = f"query {n}: full contraction by {name} of the {len(ttn.nodes)}-node network"
+        if list(got_order) != order:
+            return f"{where}: contraction order {list(got_order)}, depth-first order of the tree is {order}"
+        if tuple(found.shape) != tuple(ref.shape):
+            return (f"{where}: open legs not where the documented rules place them: shape {tuple(found.shape)}, "
+                    f"open legs of {order} in this order have {tuple(ref.shape)}")
+        if not np.allclose(found, ref, rtol=1e-9, atol=1e-9 * scale):
+            return (f"{where}: differs from the dense contraction of the stored tensors by "
+                    f"{float(np.max(np.abs(found - ref))):.3e} (scale {scale:.3e})")
     return None
 
 
@@ -210,7 +284,7 @@ def gen_edit(rng, snap, fresh, malformed=False, queries=False):
         kinds = kinds + ["query"] * 4
     k = rng.choice(kinds)
     if k == "query":
-        return ["query", rng.choice(ids), rng.choice(["node", "node", "all"])]
+        return ["query", rng.choice(ids), rng.choice(["node", "node", "all", "contract"])]
     if k == "contract" and edges:
         p, c = rng.choice(edges)
         a, b = (p, c) if rng.random() < 0.5 else (c, p)
@@ -405,7 +479,14 @@ class C02(Prop):
             "'fresh' identifier is with probability 0.4 one that was used EARLIER in the history and has been freed since (contract / split / rename); "
             "`exchange` = the identifiers of 2-3 nodes (mostly siblings) are exchanged through a temporary identifier, with look-ups in between; "
             "`mixed` = every tensor handed over is int64 / float64 / complex128 at random and explicit-replacement factors carry a random complex "
-            "unitary gauge (A.U, U^dagger.B), so node and factor data types differ. The shrinker only drops operations when every remaining one is "
+            "unitary gauge (A.U, U^dagger.B), so node and factor data types differ; look-up scope `contract` (one in four look-ups of `queries`, and all over "
+            "`collapse`) = the library's OWN full contraction of the LIVE network (completely_contract_tree: method and module function, to_copy=True on the "
+            "network itself and in place on a deep copy, asked twice), whatever leg permutations are still pending on its nodes, judged against a dense einsum "
+            "over the STORED arrays in (parent, children, open) order with the open legs in depth-first node order and against the depth-first contraction "
+            "order (tolerance relative to the largest entry; skipped above 2^16 entries); `collapse` = after the random edits the history goes on contracting "
+            "random bonds (operands in either order, fresh / reused / default identifier) until ONE node is left (skipped above 2^14 entries), asking the full "
+            "contraction on the way and on the one-node network - there also right after a tensor replacement with a random permutation, and again after a "
+            "plain access (distribution: `query:contract one node / 2+ nodes, permutation pending / none pending`). The shrinker only drops operations when every remaining one is "
             "still documented-valid where it is applied and the failure stays of the same class.")
     clauses = [
         ("F", "store invariant wfb (one root, symmetric links, equal key sets, permutations, recorded shapes = raw tensor dims, edge-wire consistency, "
@@ -435,6 +516,9 @@ class C02(Prop):
               "on every reachable state, by vm_compute"),
         ("O", "kernel factors (QR/SVD/explicit) are fresh atoms whose product over the new bond equals the input; validated numerically through the dense oracle"),
         ("V", "model = code: exact step-by-step correspondence (structure, dict orders, leg permutations, shapes, every tensor against its diagram)"),
+        ("V", "the library's own full contraction (completely_contract_tree, every public route) of the live network - one node or many, with or without pending "
+              "leg permutations - equals the dense contraction of the stored tensors with the open legs in depth-first node order, returns the depth-first order "
+              "and (to_copy=True) leaves the network untouched: judged by the oracle only (Contr/TensorProd.v models it as a store program for C04)"),
         ("V", "read-only look-ups between edits answer according to the public state and leave it untouched; mixed data types (int64/float64/complex128 "
               "nodes, complex-gauged replacement factors) keep the contraction: judged by the oracle only (the model is data-type agnostic)"),
     ]
@@ -453,7 +537,7 @@ class C02(Prop):
                           "nedits": rng.randrange(1, 13), "malformed": (j % 6 == 5), "ints": (j % 3 != 0),
                           # history / configuration families (absent = off, as in older replay files)
                           "queries": j % 2 == 1, "recycle": j % 4 in (1, 2), "exchange": j % 4 == 3 or j % 8 == 1,
-                          "mixed": j % 8 in (0, 5)})
+                          "mixed": j % 8 in (0, 5), "collapse": j % 5 == 2})
         return cases
 
     def nontrivial(self, case):
@@ -464,7 +548,7 @@ class C02(Prop):
         for x in cases:
             c[f"nodes={x['nnodes']}"] += 1
             c["malformed" if x["malformed"] else "valid"] += 1
-            fam = [f for f in ("queries", "recycle", "exchange", "mixed") if x.get(f)]
+            fam = [f for f in ("queries", "recycle", "exchange", "mixed", "collapse") if x.get(f)]
             for f in fam:
                 c["family:" + f] += 1
             if not fam:
@@ -514,6 +598,47 @@ class C02(Prop):
                         out.append(o)
                 seq = out
             return seq
+        collapse = [bool(case.get("collapse")) and not case.get("malformed"), 0]
+
+        def gen_collapse():
+            # the history goes on until the network has shrunk to ONE node: contract a random bond, operands
+            # in random order, any identifier choice; the library's own full contraction is asked on the way
+            # and at the end (there: possibly after a tensor replacement with a permutation, and again after
+            # a plain access)
+            nodes = drv.ttn.nodes
+            collapse[1] += 1
+            size = 1 if collapse[1] <= 20 else 2 ** 30
+            for nd in nodes.values():
+                nv = (nd.parent is not None) + len(nd.children)
+                sh = [nd._shape[x] for x in nd.leg_permutation]
+                size *= int(np.prod(sh[nv:])) if sh[nv:] else 1
+            if size > 2 ** 14:
+                collapse[0] = False
+                return []
+            ever.update(nodes)
+            handed.clear()
+            if len(nodes) >= 2:
+                p, c = rng.choice([(nd.parent, k) for k, nd in nodes.items() if nd.parent is not None])
+                a, b = (p, c) if rng.random() < 0.5 else (c, p)
+                new = rng.choice([None, fresh(), a, b])
+                if new is None and (a + "contr" + b) in set(nodes) - {a, b}:
+                    new = fresh()
+                seq = [["contract", a, b, new]]
+                if rng.random() < 0.5:
+                    seq.append(["query", new if new is not None else a + "contr" + b, "contract"])
+                return seq
+            collapse[0] = False
+            n = list(nodes)[0]
+            seq = []
+            if rng.random() < 0.5:
+                nl = len(nodes[n].leg_permutation)
+                q = list(range(nl))
+                rng.shuffle(q)
+                seq.append(["replace_tensor", n, q, [q.index(x) for x in range(nl)]])
+            seq.append(["query", n, "contract"])
+            if rng.random() < 0.5:
+                seq += [["access", n], ["query", n, rng.choice(["contract", "all"])]]
+            return seq
         pending = []
         ops = case.get("ops")
         replay = ops is not None
@@ -547,6 +672,9 @@ class C02(Prop):
                 op = gen_edit(rng, snapshot(drv.ttn), fresh, malformed=case["malformed"] and rng.random() < 0.4,
                               **({"queries": True} if case.get("queries") else {}))
                 nedits += 1
+            elif not replay and collapse[0]:
+                pending = gen_collapse()
+                continue
             else:
                 break
             if len(applied) == build_len and tokens is None:
@@ -566,6 +694,10 @@ class C02(Prop):
                 if op[1] not in drv.ttn.nodes:
                     steps.append({"ok": False, "err": "no such node", "query": True})
                     continue
+                if op[2] == "contract":
+                    npend = sum(1 for nd in drv.ttn.nodes.values() if list(nd.leg_permutation) != list(range(len(nd.leg_permutation))))
+                    self._opstats["query:contract " + ("one node" if len(drv.ttn.nodes) == 1 else "2+ nodes")
+                                  + (", permutation pending" if npend else ", none pending")] += 1
                 before = {kk: (id(v), np.array(v)) for kk, v in drv.ttn._tensors.data.items()}
                 try:
                     w = run_query(drv.ttn, op)
